@@ -685,6 +685,7 @@ def c09(ctx):
     ctx.add(backup_names_exact(fx))
     ctx.add(backup_decision_table(fx))
     ctx.add(backup_numeric_order(fx))
+    ctx.add(backup_scan_by_name(fx))
     ctx.add([o for o in r_err.run(fx, crates=("libxcp",)) if o.fn.startswith("libxcp::backup::")
              or "rename" in o.key or "backup" in o.key or "read_dir" in o.key])
 
@@ -777,6 +778,41 @@ def _int_like(ty):
         if t.startswith("core::option::Option<") and t.endswith(">"):
             t = t[len("core::option::Option<"):-1]
     return t in INT_TYPES
+
+
+ENTRY_TYPE_PROBES = ("std::fs::DirEntry::file_type", "std::fs::DirEntry::metadata", "std::fs::FileType::is_file",
+                     "std::fs::FileType::is_dir", "std::fs::FileType::is_symlink")
+
+
+def backup_scan_by_name(fx):
+    """C09: which backup numbers are taken is decided by the *names* in the directory.  Any entry called
+    `<file>.~N~` occupies N whatever it is -- a regular file, a symlink (xcp makes such backups itself when the
+    destination was a link), a directory (renaming onto it would fail or merge): a scan that looks at the entry's
+    type skips some of them and hands out a number that is taken."""
+    obs = []
+    cg = q.callgraph(fx)
+    scanners = set(p_ for p_, g_ in fx.fns.items() if g_.crate == "libxcp" and not g_.from_expansion and any(
+        x in cg.reach(p_) for x in ("std::path::Path::read_dir", "std::fs::read_dir")))
+    import views as _v
+    role_entries = set(_v.roles(fx).values()) | set(ENTRY_POINTS) | {MAIN}
+    n = 0
+    for f in ro.fns_in_scope(fx, crates=("libxcp",)):
+        in_scope = f.path.startswith("libxcp::backup::") or ((f.path in scanners or f.root in scanners)
+                                                             and f.path not in role_entries and f.root not in role_entries
+                                                             and not cg.reach(f.path).get(CB_SEND) and "drivers" not in f.path
+                                                             and WALKER != f.root and NEW != f.root)
+        if not in_scope:
+            continue
+        for bi, t in f.calls():
+            o = q.names(t)[0] or ""
+            if o in ENTRY_TYPE_PROBES and not q.span_excluded(t["span"]):
+                obs.append(Ob("R-PROBE", mkkey("R-PROBE", f.path, o, n, "scan-by-name"), False, q.loc_of(t), f.path,
+                              "the backup scan looks at an entry's type (%s): an entry of another type with a backup's name "
+                              "still occupies its number" % o.split("::")[-1], dict(callee=o)))
+                n += 1
+    obs.append(Ob("R-PROBE", mkkey("R-PROBE", "libxcp::backup", "scan-by-name", 0, "scan"), True, "", "libxcp::backup",
+                  "the backup-number scan decides by entry names only (no file-type probe of directory entries)"))
+    return obs
 
 
 def backup_numeric_order(fx):
